@@ -63,8 +63,11 @@ import "time"
 //@   requires resp != nil
 //@   ensures iff: (result == nil) == (resp.LVM>>6 != 3 && ((resp.LVM>>3)&7 == 3 || (resp.LVM>>3)&7 == 4) && resp.LVM&7 == 4 && 1 <= resp.Stratum && resp.Stratum <= 15)
 
+// t0 and t3 are the client's own transmit and receive times: a receive time before the transmit time means the local
+// clock went backwards between them; the function refuses to continue (declared panic, not an obligation of callers).
 //@ func ValidateResponseTimestamps
-//@   panics when t3.Sub(t0) < 0
+//@   maypanic "unexpected system clock behavior"
+//@   ensures local: t3.Sub(t0) >= 0
 //@   ensures iff: (result == nil) == (t2.Sub(t1) >= 0)
 
 //@ func ValidateRequest
